@@ -736,6 +736,16 @@ class _Canon(ast.NodeTransformer):
                     return sub.visit(expr)
         return node
 
+    def visit_UnaryOp(self, node):
+        self.generic_visit(node)
+        # not (a == b) -> a != b ; not (a in b) -> a not in b ; etc.
+        if isinstance(node.op, ast.Not) and isinstance(node.operand, ast.Compare) and len(node.operand.ops) == 1:
+            flip = {ast.Eq: ast.NotEq, ast.NotEq: ast.Eq, ast.In: ast.NotIn, ast.NotIn: ast.In, ast.Is: ast.IsNot, ast.IsNot: ast.Is}
+            k = type(node.operand.ops[0])
+            if k in flip:
+                return ast.copy_location(ast.Compare(left=node.operand.left, ops=[flip[k]()], comparators=node.operand.comparators), node)
+        return node
+
     def visit_Compare(self, node):
         self.generic_visit(node)
         # one direction only: a > b  ->  b < a ;  a >= b  ->  b <= a   (single comparisons)
